@@ -159,14 +159,15 @@ def headingProducer (e : Env) (r : Rec) (_ : Unit) (c : Ctx) (child : ANode) : M
 def convHeading (e : Env) (r : Rec) (ctx : Ctx) (n : ANode) : M Doc :=
   flowM e ctx n.children () (headingProducer e r)
 
-/-- State: nothing has been emitted since the marker (an empty term, `/ : desc`). -/
+/-- State: the colon of a term item needs a blank in front of it — nothing has been emitted since the
+marker (an empty term, `/ : desc`), or the term ends with a linebreak (`/ a \ : b`: `\:` is an escape). -/
 def listItemProducer (e : Env) (r : Rec) (afterMarker : Bool) (c : Ctx) (child : ANode) : M (Bool × Option FlowItem) := do
   match child.kind with
   | .listMarker | .enumMarker | .termMarker => pure (true, spaced (e.tok child.text))
   | .colon => pure (false, some ⟨e.tok child.text, afterMarker, true⟩)
   | .space => if hasLinebreak child.text then pure (afterMarker, tight hardline) else pure (afterMarker, none)
   | .parbreak => pure (afterMarker, tight (repeatN hardline (countLinebreaks child.text)))
-  | .markup => if !child.children.isEmpty then pure (false, spaced (← r.markup c child .item)) else pure (afterMarker, none)
+  | .markup => if !child.children.isEmpty then pure (endsWithLinebreak child, spaced (← r.markup c child .item)) else pure (afterMarker, none)
   | k => reject (.dropped "convert_list_item_like" k)
 
 /-- `convert_list_item_like`. -/
